@@ -136,11 +136,19 @@ func ExecuteSubscription(p ExecuteParams) chan *Result {
 			SelectionSet: exeContext.Operation.GetSelectionSet(),
 		})
 
-		responseNames := []string{}
-		for name := range fields {
-			responseNames = append(responseNames, name)
+		// the subscribed field is the first root field in document order
+		// (ties by response name), not whichever the map yields first
+		responseName := ""
+		responsePos := -1
+		for name, nodes := range fields {
+			pos := 0
+			if len(nodes) > 0 && nodes[0] != nil && nodes[0].Loc != nil {
+				pos = nodes[0].Loc.Start
+			}
+			if responsePos == -1 || pos < responsePos || (pos == responsePos && name < responseName) {
+				responseName, responsePos = name, pos
+			}
 		}
-		responseName := responseNames[0]
 		fieldNodes := fields[responseName]
 		fieldNode := fieldNodes[0]
 		fieldName := fieldNode.Name.Value
